@@ -150,8 +150,9 @@ Qed.
 Section Rule.
   Variable plines : list string -> node -> nat -> nat * nat.
   Variables metric_ok lname_ok lvalue_ok dur_ok expr_ok tmpl_pint tmpl_prom dur_zero : string -> bool.
-  Variables str_ok int_ok : node -> bool.
+  Variables str_ok int_ok null_ok : node -> bool.
   Hypothesis H_str : forall n, n_kind n = KScalar -> n_tag n <> nullTag -> str_ok n = true.
+  Hypothesis H_null : forall n, n_kind n = KScalar -> n_tag n = nullTag -> null_text (n_value n) -> null_ok n = true.
   Hypothesis H_tmpl : forall s, tmpl_pint s = true -> tmpl_prom s = true.
   Hypothesis H_lname_empty : lname_ok "" = false.
   Hypothesis H_lvalue_empty : lvalue_ok "" = true.
@@ -226,8 +227,8 @@ Section Rule.
     plain_below x -> is_tag (n_tag x) mapTag = true ->
     validate_string_map fld (mapping_nodes x) off ln = None ->
     (forall k v, In (k, v) (mapping_nodes x) -> n_value k <> "") ->
-    (n_tag x = nullTag /\ dec_strmap str_ok x = DNull) \/
-    (n_kind x = KMapping /\ dec_strmap str_ok x = DOk (pairs_text (mapping_nodes x))).
+    (n_tag x = nullTag /\ dec_strmap str_ok null_ok x = DNull) \/
+    (n_kind x = KMapping /\ dec_strmap str_ok null_ok x = DOk (pairs_text (mapping_nodes x))).
   Proof.
     intros Hp Ht Hv Hne. pose proof (plain_self x Hp) as Hx.
     destruct (is_tag_true _ _ Ht) as [T|T].
@@ -387,22 +388,21 @@ Section Rule.
 
   Lemma dec_str_value x :
     plain_below x -> is_tag (n_tag x) strTag = true -> n_tag x <> nullTag ->
-    dec_string str_ok x = DOk (n_value x).
+    dec_string str_ok null_ok x = DOk (n_value x).
   Proof.
     intros Hp Ht Hn. pose proof (plain_self x Hp) as Hx.
     assert (K : n_kind x = KScalar) by (apply plain_str_scalar; auto; destruct (is_tag_true _ _ Ht); auto).
-    rewrite (dec_string_scalar str_ok H_str x Hx K). apply String.eqb_neq in Hn. now rewrite Hn.
+    rewrite (dec_string_scalar str_ok null_ok H_str H_null x Hx K). apply String.eqb_neq in Hn. now rewrite Hn.
   Qed.
 
   Lemma dec_dur_value x :
     plain_below x -> is_tag (n_tag x) strTag = true ->
-    dec_duration str_ok dur_ok x =
+    dec_duration str_ok null_ok dur_ok x =
     if String.eqb (n_tag x) nullTag then DNull else if dur_ok (n_value x) then DOk (n_value x) else DErr.
   Proof.
     intros Hp Ht. pose proof (plain_self x Hp) as Hx.
     assert (K : n_kind x = KScalar) by (apply plain_str_scalar; auto; destruct (is_tag_true _ _ Ht); auto).
-    unfold dec_duration. rewrite (dec_string_scalar str_ok H_str x Hx K).
-    destruct (String.eqb (n_tag x) nullTag); reflexivity.
+    exact (dec_duration_scalar str_ok null_ok H_str H_null dur_ok x Hx K).
   Qed.
 
   Lemma nth_checks_none (l : list (option (perror * (nat * nat)))) :
@@ -483,7 +483,7 @@ Section Rule.
   Lemma rule_decodes rn :
     plain_below rn -> r_error (PRS lines rn) = None ->
     let ps := mapping_nodes rn in
-    dec_fields str_ok (Some rule_fields) rn = DOk (map (fun kv => (key_text kv, snd kv)) ps).
+    dec_fields str_ok null_ok (Some rule_fields) rn = DOk (map (fun kv => (key_text kv, snd kv)) ps).
   Proof.
     intros Hp Herr ps. destruct (rule_accept_facts rn Hp Herr) as (s & K & Hc & Hknown & Hnd & _).
     apply dec_fields_plain; auto.
@@ -502,16 +502,16 @@ Section Rule.
 
   Definition field_value_ok (f : field) (x : node) : Prop :=
     match f with
-    | FRecord | FAlert | FExpr => derr (dec_string str_ok x) = false
-    | FFor | FKeep => derr (dec_duration str_ok dur_ok x) = false
-    | FLabels | FAnn => derr (dec_strmap str_ok x) = false
+    | FRecord | FAlert | FExpr => derr (dec_string str_ok null_ok x) = false
+    | FFor | FKeep => derr (dec_duration str_ok null_ok dur_ok x) = false
+    | FLabels | FAnn => derr (dec_strmap str_ok null_ok x) = false
     | FUnknown => True
     end.
 
   Lemma no_field_err ps :
     (forall kv, In kv ps -> field_of (key_text kv) <> FUnknown) ->
     (forall k x, In (k, x) ps -> field_value_ok (field_of (n_value k)) x) ->
-    existsb (rule_field_err str_ok dur_ok) (map (fun kv => (key_text kv, snd kv)) ps) = false.
+    existsb (rule_field_err str_ok null_ok dur_ok) (map (fun kv => (key_text kv, snd kv)) ps) = false.
   Proof.
     intros Hknown Hok. apply not_true_is_false. intro X. apply existsb_exists in X.
     destruct X as ([name x] & Hin & Herr). apply in_map_iff in Hin. destruct Hin as ([k x'] & E & Hin).
@@ -526,7 +526,7 @@ Section Rule.
     plain_below x -> is_tag (n_tag x) mapTag = true ->
     validate_string_map fld (mapping_nodes x) off ln = None ->
     (forall k v, In (k, v) (mapping_nodes x) -> n_value k <> "") ->
-    derr (dec_strmap str_ok x) = false.
+    derr (dec_strmap str_ok null_ok x) = false.
   Proof.
     intros A B C D. destruct (strmap_of_validated fld x off ln A B C D) as [[_ E]|[_ E]]; rewrite E; reflexivity.
   Qed.
@@ -550,18 +550,18 @@ Section Rule.
     plain_below xl -> is_tag (n_tag xl) mapTag = true ->
     validate_string_map "labels" (mapping_nodes xl) 0 ln = None ->
     bad_label lname_ok lvalue_ok (ym_items (nym kl xl)) = None ->
-    derr (dec_strmap str_ok xl) = false /\
-    forallb (label_ok lname_ok lvalue_ok) (dval (dec_strmap str_ok xl) []) = true /\
+    derr (dec_strmap str_ok null_ok xl) = false /\
+    forallb (label_ok lname_ok lvalue_ok) (dval (dec_strmap str_ok null_ok xl) []) = true /\
     ((forall ab, In ab (ym_items (nym kl xl)) -> exists k', In (k', snd ab) checked) ->
      existsb (fun kv : ynode * ynode => negb (tmpl_pint (y_value (snd kv)))) checked = false ->
-     forallb (fun kv : string * string => tmpl_prom (snd kv)) (dval (dec_strmap str_ok xl) []) = true) /\
+     forallb (fun kv : string * string => tmpl_prom (snd kv)) (dval (dec_strmap str_ok null_ok xl) []) = true) /\
     NoDup (map (fun ab : ynode * ynode => y_value (fst ab)) (ym_items (nym kl xl))).
   Proof.
     intros Hp Ht Hv Hb.
     destruct (is_tag_true _ _ Ht) as [T|T].
     - (* null *)
       assert (K : n_kind xl = KScalar) by (apply plain_str_scalar; [exact (plain_self xl Hp)|auto]).
-      rewrite (dec_strmap_null str_ok xl (plain_self xl Hp) K T). cbn [derr dval forallb].
+      rewrite (dec_strmap_null str_ok null_ok H_null xl (plain_self xl Hp) K T). cbn [derr dval forallb].
       assert (C : n_content xl = []).
       { destruct (plain_self xl Hp) as [_ H]. rewrite K in H. tauto. }
       repeat split; auto. unfold new_yaml_map. cbn [ym_items]. rewrite C. constructor.
@@ -579,15 +579,15 @@ Section Rule.
     plain_below xn -> is_tag (n_tag xn) mapTag = true ->
     validate_string_map "annotations" (mapping_nodes xn) 0 ln = None ->
     bad_annotation lname_ok (ym_items (nym kn xn)) = None ->
-    derr (dec_strmap str_ok xn) = false /\
-    forallb (fun kv : string * string => lname_ok (fst kv)) (dval (dec_strmap str_ok xn) []) = true /\
+    derr (dec_strmap str_ok null_ok xn) = false /\
+    forallb (fun kv : string * string => lname_ok (fst kv)) (dval (dec_strmap str_ok null_ok xn) []) = true /\
     (existsb (fun kv : ynode * ynode => negb (tmpl_pint (y_value (snd kv)))) (ym_items (nym kn xn)) = false ->
-     forallb (fun kv : string * string => tmpl_prom (snd kv)) (dval (dec_strmap str_ok xn) []) = true).
+     forallb (fun kv : string * string => tmpl_prom (snd kv)) (dval (dec_strmap str_ok null_ok xn) []) = true).
   Proof.
     intros Hp Ht Hv Hb.
     destruct (is_tag_true _ _ Ht) as [T|T].
     - assert (K : n_kind xn = KScalar) by (apply plain_str_scalar; [exact (plain_self xn Hp)|auto]).
-      rewrite (dec_strmap_null str_ok xn (plain_self xn Hp) K T). cbn [derr dval forallb]. auto.
+      rewrite (dec_strmap_null str_ok null_ok H_null xn (plain_self xn Hp) K T). cbn [derr dval forallb]. auto.
     - pose proof (plain_map_tag xn (plain_self xn Hp) T) as K.
       assert (Hne : forall k v, In (k, v) (mapping_nodes xn) -> n_value k <> "").
       { apply (label_keys_nonempty kn xn Hp K). intros ya yb Hab. exact (bad_annotation_none _ Hb ya yb Hab). }
@@ -606,7 +606,7 @@ Section Rule.
     plain_below rn ->
     r_error (PRS lines rn) = None ->
     rule_blocks expr_ok dur_ok tmpl_pint glabels (PRS lines rn) = false ->
-    exists pr, dec_rule str_ok dur_ok rn = DOk pr /\
+    exists pr, dec_rule str_ok null_ok dur_ok rn = DOk pr /\
                rule_valid expr_ok dur_zero metric_ok lname_ok lvalue_ok tmpl_prom pr = true.
   Proof.
     intros Hp Herr Hblk.
@@ -684,15 +684,15 @@ Section Rule.
       cbn [isSome orb] in C14.
       (* labels *)
       assert (HL : match find_field FLabels ps with
-                   | Some (kl, xl) => derr (dec_strmap str_ok xl) = false /\
-                                      forallb (label_ok lname_ok lvalue_ok) (dval (dec_strmap str_ok xl) []) = true
+                   | Some (kl, xl) => derr (dec_strmap str_ok null_ok xl) = false /\
+                                      forallb (label_ok lname_ok lvalue_ok) (dval (dec_strmap str_ok null_ok xl) []) = true
                    | None => True end).
       { destruct (find_field FLabels ps) as [[kl xl]|] eqn:Fl; [|exact I].
         destruct (Hpl _ _ _ Fl) as [Hpl' _].
         pose proof (T6 "labels" xl (or_introl eq_refl)) as Tl.
         destruct (bad_label lname_ok lvalue_ok (ym_items (nym kl xl))) eqn:Bl; [discriminate C14|].
         destruct (labels_facts kl xl _ [] Hpl' Tl C7 Bl) as (A & B & _). split; assumption. }
-      assert (Herrs : existsb (rule_field_err str_ok dur_ok) a = false).
+      assert (Herrs : existsb (rule_field_err str_ok null_ok dur_ok) a = false).
       { apply no_field_err; [exact Hknown|]. intros k x Hin. pose proof (Hfound k x Hin) as Hf.
         destruct (field_of (n_value k)) eqn:Fk; cbn [field_value_ok]; try exact I.
         - rewrite Fr in Hf. inversion Hf; subst. now rewrite Dr.
@@ -737,7 +737,7 @@ Section Rule.
       cbn [isSome orb] in C14.
       (* for / keep_firing_for *)
       assert (HF : match find_field FFor ps with
-                   | Some (kf, xf) => derr (dec_duration str_ok dur_ok xf) = false
+                   | Some (kf, xf) => derr (dec_duration str_ok null_ok dur_ok xf) = false
                    | None => True end).
       { destruct (find_field FFor ps) as [[kf xf]|] eqn:Ff; [|exact I].
         destruct (Hpl _ _ _ Ff) as [Hpf _].
@@ -746,7 +746,7 @@ Section Rule.
         cbn [oval option_map snd bad_dur] in Hbf. rewrite nyn_value, (node_value_plain xf (plain_self _ Hpf)) in Hbf.
         apply negb_false_iff in Hbf. now rewrite Hbf. }
       assert (HK : match find_field FKeep ps with
-                   | Some (kk, xk) => derr (dec_duration str_ok dur_ok xk) = false
+                   | Some (kk, xk) => derr (dec_duration str_ok null_ok dur_ok xk) = false
                    | None => True end).
       { destruct (find_field FKeep ps) as [[kk xk]|] eqn:Fkp; [|exact I].
         destruct (Hpl _ _ _ Fkp) as [Hpk _].
@@ -755,9 +755,9 @@ Section Rule.
         cbn [oval option_map snd bad_dur] in Hbk. rewrite nyn_value, (node_value_plain xk (plain_self _ Hpk)) in Hbk.
         apply negb_false_iff in Hbk. now rewrite Hbk. }
       assert (HL : match find_field FLabels ps with
-                   | Some (kl, xl) => derr (dec_strmap str_ok xl) = false /\
-                                      forallb (label_ok lname_ok lvalue_ok) (dval (dec_strmap str_ok xl) []) = true /\
-                                      forallb (fun kv : string * string => tmpl_prom (snd kv)) (dval (dec_strmap str_ok xl) []) = true
+                   | Some (kl, xl) => derr (dec_strmap str_ok null_ok xl) = false /\
+                                      forallb (label_ok lname_ok lvalue_ok) (dval (dec_strmap str_ok null_ok xl) []) = true /\
+                                      forallb (fun kv : string * string => tmpl_prom (snd kv)) (dval (dec_strmap str_ok null_ok xl) []) = true
                    | None => True end).
       { destruct (find_field FLabels ps) as [[kl xl]|] eqn:Fl; [|exact I].
         destruct (Hpl _ _ _ Fl) as [Hpl' _].
@@ -768,9 +768,9 @@ Section Rule.
         split; [exact A|]. split; [exact B|]. apply C; [|exact Htl].
         apply entry_labels_keeps. exact D. }
       assert (HN : match find_field FAnn ps with
-                   | Some (kn, xn) => derr (dec_strmap str_ok xn) = false /\
-                                      forallb (fun kv : string * string => lname_ok (fst kv)) (dval (dec_strmap str_ok xn) []) = true /\
-                                      forallb (fun kv : string * string => tmpl_prom (snd kv)) (dval (dec_strmap str_ok xn) []) = true
+                   | Some (kn, xn) => derr (dec_strmap str_ok null_ok xn) = false /\
+                                      forallb (fun kv : string * string => lname_ok (fst kv)) (dval (dec_strmap str_ok null_ok xn) []) = true /\
+                                      forallb (fun kv : string * string => tmpl_prom (snd kv)) (dval (dec_strmap str_ok null_ok xn) []) = true
                    | None => True end).
       { destruct (find_field FAnn ps) as [[kn xn]|] eqn:Fn; [|exact I].
         destruct (Hpl _ _ _ Fn) as [Hpn _].
@@ -779,7 +779,7 @@ Section Rule.
         cbn [oval option_map snd] in Hta.
         destruct (annotations_facts kn xn _ Hpn Tn C8 Bn) as (A & B & C).
         split; [exact A|]. split; [exact B|]. exact (C Hta). }
-      assert (Herrs : existsb (rule_field_err str_ok dur_ok) a = false).
+      assert (Herrs : existsb (rule_field_err str_ok null_ok dur_ok) a = false).
       { apply no_field_err; [exact Hknown|]. intros k x Hin. pose proof (Hfound k x Hin) as Hf.
         destruct (field_of (n_value k)) eqn:Fk; cbn [field_value_ok]; try exact I.
         - rewrite Fr in Hf. discriminate.
